@@ -491,6 +491,8 @@ def rule_satisfy_loop(chk, prog):
 
 def run(chk):
     prog = chk.load()
+    from . import c02 as _c02
+    _c02.PROG[0] = prog
     rule_verify_before_publish(chk, prog)
     rule_satisfy_loop(chk, prog)
     rule_merge_split(chk, prog)
